@@ -18,6 +18,8 @@ m("C01-impact-lt0", "v3/metric/base.go", "if impact <= 0 {", "if impact < 0 {")
 m("C01-no-min", "v3/metric/base.go", "return roundUp(math.Min(impact+ease, 10))", "return roundUp(impact + ease)")
 m("C01-round-nearest", "v3/metric/base.go", "return roundUp(math.Min(impact+ease, 10))", "return math.Round(math.Min(impact+ease, 10)*10) / 10")
 m("C01-ci-swap-weight", "v3/metric/base.go", "(1-bm.C.Value())*(1-bm.I.Value())*(1-bm.A.Value())", "(1-bm.C.Value())*(1-bm.C.Value())*(1-bm.A.Value())")
+m("C01-roundup-precision", "v3/metric/misc.go", "\tintInput := math.Round(input * 100000)\n\n\tif int(intInput)%10000 == 0 {\n\t\treturn intInput / 100000\n\t}\n\n\treturn (math.Floor(intInput/10000) + 1) / 10.0", "\tintInput := math.Round(input * 1000)\n\n\tif int(intInput)%100 == 0 {\n\t\treturn intInput / 1000\n\t}\n\n\treturn (math.Floor(intInput/100) + 1) / 10.0")
+m("C01-roundup-trunc", "v3/metric/misc.go", "\tintInput := math.Round(input * 100000)", "\tintInput := math.Trunc(input * 100000)")
 # ---- C02
 m("C02-rl-t-097", "v3/metric/remediation-level.go", "RemediationLevelTemporaryFix: 0.96", "RemediationLevelTemporaryFix: 0.97")
 m("C02-default-e-high", "v3/metric/temporal.go", "E:     ExploitabilityNotDefined,", "E:     ExploitabilityHigh,")
